@@ -893,6 +893,18 @@ class Engine:
         return
 
     def simple(self, s, env, W):
+        # `a, b = e1, e2` with independent right-hand sides is `a = e1; b = e2`
+        if isinstance(s, ast.Assign) and len(s.targets) == 1 and isinstance(s.targets[0], ast.Tuple) \
+                and isinstance(s.value, (ast.Tuple, ast.List)) \
+                and len(s.targets[0].elts) == len(s.value.elts) \
+                and all(isinstance(x, ast.Name) for x in s.targets[0].elts):
+            names = {x.id for x in s.targets[0].elts}
+            used = {n.id for v in s.value.elts for n in ast.walk(v) if isinstance(n, ast.Name)}
+            if not (names & used) and len(names) == len(s.targets[0].elts):
+                for tg, v in zip(s.targets[0].elts, s.value.elts):
+                    self.simple(ast.copy_location(ast.Assign(targets=[tg], value=v, lineno=s.lineno), s),
+                                env, W)
+                return
         # accumulate-loop form of a comprehension: `xs = []` ... `xs.append(x)`
         if isinstance(s, ast.Expr) and isinstance(s.value, ast.Call) \
                 and isinstance(s.value.func, ast.Attribute) and s.value.func.attr == "append" \
